@@ -87,11 +87,18 @@ def _mean_ok(ctx, got, parts, what, spec):
         ctx.violate("scores_are_means", f"scores_are_means:{spec['task']}:{what}", observed=got, expected=want, spec=spec)
 
 
-def run_task(ctx, spec, order=None):
+def run_task(ctx, spec, order=None, twice=False):
     cps, cas, tags, idx = E.build(spec, order)
     with warnings.catch_warnings():
         warnings.simplefilter("ignore")
         ev = _task(spec["task"])(cps, cas, tags)
+        if twice:
+            # the same objects evaluated a second time: state left behind by the first call must not matter
+            ev2 = _task(spec["task"])(cps, cas, tags)
+            ctx.mon("repeat_call")
+            d = _cmp(summarise(ev), summarise(ev2))
+            if d:
+                ctx.violate("repeat_call_differs", f"repeat_call_differs:{spec['task']}", observed={"differs_at": d}, expected="same result on the second call", spec=spec)
     return ev, idx
 
 
@@ -139,7 +146,7 @@ def judge(ctx, spec):
         ctx.ood("no_evaluated_item")  # quantifier: at least one evaluated item overall
         return
     try:
-        ev, idx = run_task(ctx, spec)
+        ev, idx = run_task(ctx, spec, twice=(ctx.evaluations % 3 == 0))
     except Exception as e:
         key = f"raises:{task}:{type(e).__name__}"
         if len(vocab) == 1:
